@@ -209,7 +209,7 @@ def report(run, stream, bad, jobs, outs):
     v3 = [i for i, c in order if c == 3]
     seen = set()
     shown = 0
-    limit = 6 if stream == "corpus" else 2
+    limit = 8 if stream == "corpus" else 2
     for i in v1:
         j, o = jobs[i], outs[i]
         if o["pkg"] is None and o["stage"] == "unit":
@@ -217,7 +217,7 @@ def report(run, stream, bad, jobs, outs):
                           dict(kind="harness-error", case=j, impl=o), found_input=False)
             continue
         # one report per (generator, unit, pre): the smallest failing call
-        grp = (j["gen"], json.dumps(j["unit"], sort_keys=True), bool(j.get("pre")))
+        grp = (j["gen"], json.dumps(j["unit"], sort_keys=True), bool(j.get("pre")), (j.get("nser") or 1) >= 2)
         if grp in seen or shown >= limit:
             continue
         seen.add(grp)
